@@ -483,3 +483,5 @@ func C19_GenesisWithdrawAddrs() { focus = "C19"; sceneGenesisWithdrawAddrs() }
 
 func C15_ExpirySlash() { focus = "C15"; sceneExpiry(exSlash) }
 func C19_ExpirySlash() { focus = "C19"; sceneExpiry(exSlash) }
+
+func C19_Respond() { focus = "C19"; sceneRespond(rsOne) }
